@@ -7,9 +7,9 @@ package main
 
 import (
 	"fmt"
-	"os"
 	"go/token"
 	"go/types"
+	"os"
 	"sort"
 	"strings"
 
@@ -36,12 +36,14 @@ type runKey struct {
 }
 
 type PanicScan struct {
-	p       *Program
-	scope   map[*ssa.Function]bool
-	runs    map[runKey]*fnRun
-	small   map[*ssa.Function]int // 0 unknown, 1 inline, 2 opaque
-	Unroll  int
-	callers map[*ssa.Function][]*ssa.Function
+	p         *Program
+	scope     map[*ssa.Function]bool
+	runs      map[runKey]*fnRun
+	small     map[*ssa.Function]int // measured: 0 unknown, 1 inline, 2 opaque
+	height    map[*ssa.Function]int // structOK: call height of the structurally inlinable functions
+	measuring map[*ssa.Function]bool
+	Unroll    int
+	callers   map[*ssa.Function][]*ssa.Function
 }
 
 func NewPanicScan(p *Program, scope []*ssa.Function) *PanicScan {
@@ -134,42 +136,92 @@ func (ex *Exec) topArg(st *State, t types.Type, name string) Val {
 	return ex.topOf(st, t, name)
 }
 
-// inlineOK: loop-free, small, and all static module callees inlineOK (modular analysis: everything else
-// is analysed on its own and treated as opaque — unknown result, heap forgotten — in its callers).
-func (ps *PanicScan) inlineOK(fn *ssa.Function, depth int) bool {
-	if v := ps.small[fn]; v != 0 {
-		return v == 1
-	}
-	if fn.Blocks == nil {
-		return true // no body: handled by summaries / opaque anyway
-	}
-	ps.small[fn] = 2
-	if depth > 6 || len(naturalLoops(fn)) > 0 {
-		return false
-	}
-	n := 0
-	for _, b := range fn.Blocks {
-		n += len(b.Instrs)
-	}
-	if n > 150 {
-		return false
-	}
-	for _, call := range calls(fn) {
-		if cal := call.Common().StaticCallee(); cal != nil && InModule(cal) && cal != fn {
-			if !ps.inlineOK(cal, depth+1) {
-				return false
+// structOK: loop-free, at most 150 instructions, every static module callee structOK, call height at most 7, not part
+// of a static call cycle. Computed once for the whole module as a least fixed point from the leaves, so the answer does
+// not depend on the order in which functions are asked about (until round 4 it was a memoised depth-first search whose
+// depth cut-off and in-progress marks were cached: the same function could come out inlinable or opaque depending on
+// map iteration order).
+func (ps *PanicScan) structOK(fn *ssa.Function) bool {
+	if ps.height == nil {
+		ps.height = map[*ssa.Function]int{}
+		cand := map[*ssa.Function][]*ssa.Function{}
+		for f := range ps.p.All {
+			if !InModule(f) || f.Blocks == nil || len(naturalLoops(f)) > 0 {
+				continue
+			}
+			n := 0
+			for _, b := range f.Blocks {
+				n += len(b.Instrs)
+			}
+			if n > 150 {
+				continue
+			}
+			cs := []*ssa.Function{}
+			for _, call := range calls(f) {
+				if cal := call.Common().StaticCallee(); cal != nil && InModule(cal) && cal.Blocks != nil {
+					cs = append(cs, cal)
+				}
+			}
+			cand[f] = cs
+		}
+		for changed := true; changed; {
+			changed = false
+			for f, cs := range cand {
+				if _, done := ps.height[f]; done {
+					continue
+				}
+				h, ok := 0, true
+				for _, cal := range cs {
+					hc, done := ps.height[cal]
+					if !done {
+						ok = false
+						break
+					}
+					if hc+1 > h {
+						h = hc + 1
+					}
+				}
+				if ok && h <= 7 {
+					ps.height[f] = h
+					changed = true
+				}
 			}
 		}
 	}
-	ps.small[fn] = 1
-	// measured: a callee whose own abstract run splits into many partitions is summarised (opaque) in its callers
-	if ps.scope[fn] {
-		r := ps.runForced(fn, nil)
-		if r.failed != "" || r.paths > 8 {
-			ps.small[fn] = 2
-			return false
-		}
+	_, ok := ps.height[fn]
+	return ok
+}
+
+// inlineOK: structOK, and — for functions of the scanned scope — measured: the function's own abstract run with
+// unknown inputs completes in at most 8 partitions (a callee that splits into many partitions is summarised as opaque
+// in its callers: unknown result, reachable heap forgotten).
+func (ps *PanicScan) inlineOK(fn *ssa.Function, depth int) bool {
+	if fn.Blocks == nil {
+		return true // no body: handled by summaries / opaque anyway
 	}
+	if !ps.structOK(fn) {
+		return false
+	}
+	if !ps.scope[fn] {
+		return true
+	}
+	if v := ps.small[fn]; v != 0 {
+		return v == 1
+	}
+	if ps.measuring[fn] {
+		return false // reached again through a dynamic call while being measured: not inlined, not cached
+	}
+	if ps.measuring == nil {
+		ps.measuring = map[*ssa.Function]bool{}
+	}
+	ps.measuring[fn] = true
+	r := ps.runForced(fn, nil)
+	delete(ps.measuring, fn)
+	if r.failed != "" || r.paths > 8 {
+		ps.small[fn] = 2
+		return false
+	}
+	ps.small[fn] = 1
 	return true
 }
 
@@ -200,10 +252,9 @@ func (ps *PanicScan) runForced(fn *ssa.Function, forced []*ssa.Function) *fnRun 
 		ex.MaxPaths = 6000
 		ex.LazyPtr = true
 		ex.WidenAtEntry = true
-		for f := range ps.p.All {
-			if InModule(f) && f != fn && !fset[f] && f.Blocks != nil && !ps.inlineOK(f, 0) {
-				ex.NoInline[f] = true
-			}
+		// decided lazily, when a call of f is met: only the functions this run actually reaches are asked about
+		ex.NoInlineFn = func(f *ssa.Function) bool {
+			return InModule(f) && f != fn && !fset[f] && f.Blocks != nil && !ps.inlineOK(f, 0)
 		}
 		st := ex.NewState()
 		var args []Val
@@ -224,7 +275,7 @@ func (ps *PanicScan) runForced(fn *ssa.Function, forced []*ssa.Function) *fnRun 
 		}
 		if os.Getenv("ABSDEBUG") != "" {
 			defer func() {
-				fmt.Fprintf(os.Stderr, "panicscan %s forced=%d paths=%d failed=%q stats=%+v noinline=%d allocs=%v\n", FuncName(fn), len(forced), len(outs), r.failed, ex.Stats, len(ex.NoInline), r.allocs)
+				fmt.Fprintf(os.Stderr, "panicscan %s forced=%d paths=%d failed=%q stats=%+v allocs=%v\n", FuncName(fn), len(forced), len(outs), r.failed, ex.Stats, r.allocs)
 			}()
 		}
 		for _, o := range outs {
